@@ -4,9 +4,9 @@ cd /verif
 mkdir -p /tmp/bn
 IDS=$(python3 -c "import json;print(' '.join(c['property_id'] for c in json.load(open('MANIFEST.json'))['checks']))")
 DIRS=${@:-$(ls -d benign/*/)}
-echo $DIRS | tr ' ' '\n' | awk '{print NR%4, $0}' > /tmp/bn/jobs.txt
+echo $DIRS | tr ' ' '\n' | awk "{print NR%6, \$0}" > /tmp/bn/jobs.txt
 : > /tmp/bn/result.tsv
-for w in 0 1 2 3; do
+for w in 0 1 2 3 4 5; do
  ( grep "^$w " /tmp/bn/jobs.txt | while read _ job; do
      name=$(basename $job)
      WT=/tmp/bn/wt$w; rm -rf $WT; git -C /repo worktree prune; git -C /repo worktree add --detach $WT HEAD >/dev/null 2>&1
